@@ -356,7 +356,7 @@ def check(prop, tier, seed, jobs, worlds=None, wall=None, keep=False):
             "schedule_profiles": dict(hist["profiles"]), "output_modes": dict(hist["modes"]),
             "stream_chunk_profiles": dict(hist["stream_profiles"]),
             "distinct_interleaving_signatures": len(sigs),
-            "interleaving_measure": "distinct (pool size, task->worker map, completion permutation) per pool round",
+            "interleaving_measure": "distinct (pool size, task->worker map, completion permutation, side-effect order) per pool round",
             "distinct_hash_seeds": len(set(hs)), "hash_seeds": hs,
             "worlds_under_two_hash_seeds": int(agg.get("worlds_under_two_hash_seeds", 0)),
             "distinct_execution_digests": int(agg["exec_digests"]),
